@@ -547,12 +547,12 @@ class SymExec:
             off, ext = d[1], d[2]
             if isinstance(w, LoopIR.Point):
                 p = self.ctrl(w.pt, env)
-                self.obl("window", g, z3.And(p >= 0, p < ext), f"window {e.name} pt dim {k}")
+                self.obl("window_overhang", g, z3.And(p >= 0, p < ext), f"window {e.name} pt dim {k}")
                 new.append(("pt", off + p))
             else:
                 lo = self.ctrl(w.lo, env)
                 hi = self.ctrl(w.hi, env)
-                self.obl("window", g, z3.And(lo >= 0, lo <= hi, hi <= ext), f"window {e.name} iv dim {k}")
+                self.obl("window_overhang", g, z3.And(lo >= 0, lo <= hi, hi <= ext), f"window {e.name} iv dim {k}")
                 new.append(("iv", z3.simplify(off + lo), z3.simplify(hi - lo)))
             k += 1
         return Ref(ref.store, new)
@@ -978,6 +978,7 @@ class ConcExec:
         self.steps = 0
         self.max_steps = max_steps
         self.violations: List[Tuple[str, str]] = []
+        self.notes: List[Tuple[str, str]] = []  # informational (window intervals overhanging their base: not an access)
         self.check_view = check_view
         self.accesses = None  # optional log for race replay: (kind, store-key, idx, par ctx, where)
         self.par_ctx = ()
@@ -1138,13 +1139,13 @@ class ConcExec:
             if isinstance(w, LoopIR.Point):
                 p = self.ctrl(w.pt, env)
                 if not (0 <= p < ext):
-                    self.viol("window", f"window {e.name} point {p} not in [0,{ext})")
+                    self.notes.append(("window_overhang", f"window {e.name} point {p} not in [0,{ext})"))
                 new.append(("pt", off + p))
             else:
                 lo = self.ctrl(w.lo, env)
                 hi = self.ctrl(w.hi, env)
                 if not (0 <= lo <= hi <= ext):
-                    self.viol("window", f"window {e.name} [{lo}:{hi}] not inside [0,{ext}]")
+                    self.notes.append(("window_overhang", f"window {e.name} [{lo}:{hi}] not inside [0,{ext}]"))
                 new.append(("iv", off + lo, hi - lo))
         return CRef(ref.store, new)
 
@@ -1205,7 +1206,8 @@ class ConcExec:
             shape = [self.ctrl(e, env) for e in (t.shape() if t.is_tensor_or_window() else [])]
             for k, e in enumerate(shape):
                 if e < 1:
-                    self.viol("alloc_extent", f"alloc {s.name} dim {k} = {e}")
+                    # informational: the property (C03/C04) speaks of accesses, calls and loops, not of empty allocations
+                    self.notes.append(("alloc_extent", f"alloc {s.name} dim {k} = {e}"))
             env[s.name] = cfull(CStore(str(s.name), shape))
         elif isinstance(s, LoopIR.Free):
             pass
